@@ -37,6 +37,27 @@ def cq_outcome(o):
     return f"(OVal {decl.cq_canon(o['ok'])} {('(Some ' + decl.z(o['end']) + ')') if 'end' in o else 'None'})"
 
 
+def cq_blocks(bl, o):
+    """generated-module block structure (impl_pkt.generated_blocks) -> Gallina option (list bdesc)"""
+    if 'ok' not in o:
+        return "(Some [DLoop (FN (-7))])"          # could not be read back: never agrees
+    if bl is None:
+        return "None"
+    out = []
+    for b in bl:
+        if b[0] == 'S':
+            if not b[5] or (b[3] is not None and b[3] != sum(m[2] for m in b[2])):
+                out.append("DLoop (FN (-8))")       # malformed struct block (format / advance inconsistent)
+                continue
+            ms = "; ".join(f"({decl.parse_fname(m[0])[3:]}, {'true' if m[1] else 'false'}, {m[2]}, {'true' if m[3] else 'false'})" for m in b[2])
+            out.append(f"DStruct {'true' if b[1] else 'false'} [{ms}]")
+        elif b[0] == 'L':
+            out.append(f"DLoop ({decl.parse_fname(b[1])})")
+        else:
+            out.append("DLoop (FN (-9))")
+    return "(Some [" + "; ".join(out) + "])"
+
+
 class Group:
     """one class table and the operations to run on it"""
     def __init__(self, table, gid):
@@ -47,12 +68,21 @@ class Group:
     def blocks(self):
         return [dict(name=decl.cname(c), src=decl.py_class(c, pc)) for c, pc in sorted(self.table.items())]
 
-    def add_derive(self, c, value, seed, offsets=(), maxcuts=16, flips=3):
+    def add_derive(self, c, value, seed, offsets=(), maxcuts=16, flips=3, record=False):
         self.ops.append(dict(cls=decl.cname(c), op='derive', value=jvalue(value), seed=seed, offsets=list(offsets),
-                             maxcuts=maxcuts, flips=flips, _value=value, _c=c))
+                             maxcuts=maxcuts, flips=flips, record=record, _value=value, _c=c))
 
-    def add_unpack(self, c, raw, offset=0):
-        self.ops.append(dict(cls=decl.cname(c), op='roundtrip', raw=raw.hex(), offset=offset, _c=c))
+    def add_unpack(self, c, raw, offset=0, record=False):
+        self.ops.append(dict(cls=decl.cname(c), op='roundtrip', raw=raw.hex(), offset=offset, record=record, _c=c))
+
+    def add_blocks(self, c):
+        self.ops.append(dict(cls=decl.cname(c), op='blocks', _c=c))
+
+    def add_extra(self, c, op):
+        """an implementation-only operation (not compared with the model): api / eq"""
+        op = dict(op)
+        op.update(cls=decl.cname(c), _c=c, _extra=True)
+        self.ops.append(op)
 
     def add_pack(self, c, value):
         self.ops.append(dict(cls=decl.cname(c), op='pack', value=jvalue(value), _value=value, _c=c))
@@ -95,6 +125,13 @@ def run_groups(groups, tag='g'):
                         records.append(dict(group=g.gid, kind='roundtrip', c=c, raw=raw, offset=d['offset'], outcome=d['outcome'],
                                             source_value=op['_value'], source_raw=bytes.fromhex(o['packed']['ok'])))
                         lines.append(f"CRound {c} {decl.cq_bytes(raw)} {d['offset']} {cq_outcome(d['outcome'])}")
+                elif op['op'] == 'blocks':
+                    records.append(dict(group=g.gid, kind='blocks', c=c, outcome=o))
+                    lines.append(f"CBlocks {c} {cq_blocks(o.get('ok', {}).get('unpack'), o)} {cq_blocks(o.get('ok', {}).get('pack'), o)}")
+                elif op.get('_extra'):
+                    records.append(dict(group=g.gid, kind='extra:' + op['op'], c=c, op={k: v for k, v in op.items() if not k.startswith('_')},
+                                        outcome=o, nomodel=True))
+                    lines.append(None)
                 elif op['op'] == 'roundtrip':
                     raw = bytes.fromhex(op['raw'])
                     records.append(dict(group=g.gid, kind='roundtrip', c=c, raw=raw, offset=op['offset'], outcome=o))
@@ -106,6 +143,7 @@ def run_groups(groups, tag='g'):
                     records.append(dict(group=g.gid, kind='default', c=c, value=op['_value'], outcome=o))
                     lines.append(f"CDefault {decl.cq_value(op['_value'])} {cq_outcome(o)}")
             text.append(f"Definition T{g.gid} : list (cid * pclass) := {decl.cq_table(g.table)}.\n")
+            lines = [l if l is not None else 'CDefined (-1) false' for l in lines]   # implementation-only operations: a case that always agrees keeps the indices aligned
             for k, part in enumerate(shard(lines, 120)):
                 text.append(f"Definition C{g.gid}_{k} : list pcase := [\n" + ";\n".join(part) + "\n].\n")
                 calls.append(f"check_group {'true' if host else 'false'} {base + 120 * k} T{g.gid} C{g.gid}_{k}")
